@@ -436,6 +436,28 @@ func c12RawServer(st *c12State, fail func(string, ...interface{}), live *vnet.Ct
 		)
 	}
 	cases = append(cases, tc{`{"error":"org.varlink.service.Other","parameters":{"a":1}}`, "Error|org.varlink.service.Other"}, tc{`{"error":"x.y.E","parameters":{"interface":"i"}}`, "Error|x.y.E"})
+	// more-calls: an error frame behind progress replies carries its own parameters (or none) - never what an
+	// earlier reply of the same call carried
+	type sc struct {
+		frames []string
+		want   string
+	}
+	prog := []string{`{"continues":true,"parameters":{"interface":"stale","method":"stale","parameter":"stale","q":"stale"}}`, `{"continues":true}`}
+	var streams []sc
+	for _, np := range []int{1, 2} {
+		for _, e := range []sc{
+			{[]string{`{"error":"x.y.E"}`}, "Error|x.y.E|"},
+			{[]string{`{"error":"x.y.E","parameters":null}`}, "Error|x.y.E|"},
+			{[]string{`{"error":"x.y.E","parameters":{"q":2}}`}, `Error|x.y.E|{"q":2}`},
+			{[]string{`{"error":"x.y.E","parameters":{}}`}, `Error|x.y.E|{}`},
+			{[]string{`{"error":"org.varlink.service.InterfaceNotFound"}`}, "InterfaceNotFound|"},
+			{[]string{`{"error":"org.varlink.service.MethodNotFound","parameters":{}}`}, "MethodNotFound|"},
+			{[]string{`{"error":"org.varlink.service.InvalidParameter"}`}, "InvalidParameter|"},
+			{[]string{`{"error":"org.varlink.service.MethodNotImplemented","parameters":{"method":"m"}}`}, "MethodNotImplemented|m"},
+		} {
+			streams = append(streams, sc{append(append([]string{}, prog[:np]...), e.frames...), e.want})
+		}
+	}
 	vsched.GoDaemon("P", func() {
 		p := &rawPeer{c: peer}
 		for _, c := range cases {
@@ -444,7 +466,68 @@ func c12RawServer(st *c12State, fail func(string, ...interface{}), live *vnet.Ct
 			}
 			peer.Write([]byte(c.frame + "\x00"))
 		}
+		for _, s := range streams {
+			if _, ok := p.readFrame(); !ok {
+				return
+			}
+			peer.Write([]byte(strings.Join(s.frames, "\x00") + "\x00"))
+		}
 	})
+	defer func() {
+		for _, s := range streams {
+			recv, err := conn.Send(live, "a.b.M", nil, varlink.More)
+			if err != nil {
+				fail("more-call against the scripted server: Send failed: %v", err)
+				return
+			}
+			st.calls++
+			got := ""
+			for i := 0; i < len(s.frames); i++ {
+				var out map[string]interface{}
+				fl, err := recv(live, &out)
+				if err == nil {
+					if fl&varlink.Continues == 0 {
+						got = "success"
+						break
+					}
+					continue
+				}
+				switch e := err.(type) {
+				case *varlink.InterfaceNotFound:
+					got = "InterfaceNotFound|" + e.Interface
+				case *varlink.MethodNotFound:
+					got = "MethodNotFound|" + e.Method
+				case *varlink.MethodNotImplemented:
+					got = "MethodNotImplemented|" + e.Method
+				case *varlink.InvalidParameter:
+					got = "InvalidParameter|" + e.Parameter
+				case *varlink.Error:
+					raw := ""
+					switch pv := e.Parameters.(type) {
+					case *json.RawMessage:
+						if pv != nil {
+							raw = string(*pv)
+						}
+					case json.RawMessage:
+						raw = string(pv)
+					case nil:
+					default:
+						raw = fmt.Sprintf("%T", pv)
+					}
+					if raw == "null" {
+						raw = ""
+					}
+					got = "Error|" + e.Name + "|" + raw
+				default:
+					got = fmt.Sprintf("%T|%v", err, err)
+				}
+				break
+			}
+			if got != s.want {
+				fail("server frames %s: the more-call ended with %s, want %s", strings.Join(s.frames, " "), got, s.want)
+			}
+		}
+	}()
 	for _, c := range cases {
 		var out interface{}
 		err := conn.Call(live, "a.b.M", nil, &out)
